@@ -94,10 +94,14 @@ void ts_range_array_get_changed_ranges(
       if (in_old_range != in_new_range) {
         ts_range_array_add(differences, current_position, next_new_position);
       }
+      // A list that is exhausted sits at LENGTH_MAX; a boundary of the other list
+      // at the same offset must not move it back "into" a range that does not exist.
+      bool old_done = !in_old_range && old_index >= old_range_count;
+      bool new_done = !in_new_range && new_index >= new_range_count;
       if (in_old_range) old_index++;
       if (in_new_range) new_index++;
-      in_old_range = !in_old_range;
-      in_new_range = !in_new_range;
+      if (!old_done) in_old_range = !in_old_range;
+      if (!new_done) in_new_range = !in_new_range;
       current_position = next_new_position;
     }
   }
